@@ -121,6 +121,28 @@ void transpose_case(Ctx& c) {
     { Tensor<T, M, N> back = transpose(transpose(A)); launder(back.data()); std::vector<T> orig(A.data(), A.data() + M * N); cmp_moved(c, back.data(), orig, "transpose(transpose(A))", 100); }
     { Tensor<T, N, M> B0; fill_unique(B0.data(), M * N, 5000); Framed<Tensor<T, N, M>> B; std::memcpy(B->data(), B0.data(), sizeof(T) * M * N); launder(B->data());
       VP_LIB(*B += trans(A)); std::vector<T> w(M * N); for (size_t i = 0; i < M * N; ++i) w[i] = B0.data()[i] + want[i]; cmp_moved(c, B->data(), w, "B+=trans(A)", 5100); B.verify(c, "B+=trans(A)"); }
+    // every assignment form of the lazy trans() is its own overload (assign, assign_add, assign_sub, assign_mul, assign_div), and so are the
+    // element-wise binary nodes that contain it: all of them have to read the operand with its own extents, also when it is not square
+    { Tensor<T, N, M> B0; fill_unique(B0.data(), M * N, 5000); T sc = T(3);
+      for (int form = 0; form < (is_cplx<T>::value ? 3 : 12); ++form) {
+          Framed<Tensor<T, N, M>> B; std::memcpy(B->data(), B0.data(), sizeof(T) * M * N); launder(B->data()); std::vector<T> w(M * N); const char* nm = "";
+          switch (form) {
+          case 0: VP_LIB(*B -= trans(A)); for (size_t i = 0; i < M * N; ++i) w[i] = B0.data()[i] - want[i]; nm = "B-=trans(A)"; break;
+          case 1: VP_LIB(*B += trans(A + T(0))); for (size_t i = 0; i < M * N; ++i) w[i] = B0.data()[i] + want[i]; nm = "B+=trans(expr)"; break;
+          case 2: VP_LIB(*B = B0 - trans(A)); for (size_t i = 0; i < M * N; ++i) w[i] = B0.data()[i] - want[i]; nm = "B=B0-trans(A)"; break;
+          case 3: VP_LIB(*B *= trans(A)); for (size_t i = 0; i < M * N; ++i) w[i] = B0.data()[i] * want[i]; nm = "B*=trans(A)"; break;
+          case 4: VP_LIB(*B /= trans(A)); for (size_t i = 0; i < M * N; ++i) w[i] = B0.data()[i] / want[i]; nm = "B/=trans(A)"; break;
+          case 5: VP_LIB(*B *= trans(A + T(0))); for (size_t i = 0; i < M * N; ++i) w[i] = B0.data()[i] * want[i]; nm = "B*=trans(expr)"; break;
+          case 6: VP_LIB(*B /= trans(A + T(0))); for (size_t i = 0; i < M * N; ++i) w[i] = B0.data()[i] / want[i]; nm = "B/=trans(expr)"; break;
+          case 7: VP_LIB(*B = B0 * trans(A)); for (size_t i = 0; i < M * N; ++i) w[i] = B0.data()[i] * want[i]; nm = "B=B0*trans(A)"; break;
+          case 8: VP_LIB(*B = B0 / trans(A)); for (size_t i = 0; i < M * N; ++i) w[i] = B0.data()[i] / want[i]; nm = "B=B0/trans(A)"; break;
+          case 9: VP_LIB(*B = trans(A) / B0); for (size_t i = 0; i < M * N; ++i) w[i] = want[i] / B0.data()[i]; nm = "B=trans(A)/B0"; break;
+          case 10: VP_LIB(*B = sc * trans(A)); for (size_t i = 0; i < M * N; ++i) w[i] = sc * want[i]; nm = "B=s*trans(A)"; break;
+          default: VP_LIB(*B = trans(A) - sc); for (size_t i = 0; i < M * N; ++i) w[i] = want[i] - sc; nm = "B=trans(A)-s"; break;
+          }
+          for (size_t i = 0; i < M * N; ++i) c.eq(B->data()[i], w[i], nm, (long)i, "lazy-trans-assignment-form");
+          B.verify(c, nm);
+      } }
     c.nontrivial = M * N > 1;
     if (M * N == 1) c.nontrivial = true;
 }
